@@ -6,7 +6,7 @@
 #![allow(non_snake_case, unused_imports, dead_code, clippy::all)]
 
 use super::*;
-use crate::arena::bump::verif_kani as bk;
+use crate::arena::verif_bump as bk;
 include!("tier.rs");
 
 pub(crate) const PS_COUNT: u32 = 2; // slots per class in the hand-laid-out set
